@@ -299,18 +299,24 @@ class MV:
                                                                      (getattr(e.start, "t", e.start).__repr__(), getattr(e.stop, "t", e.stop).__repr__()) for e in key))
         if k not in self._cache:
             c = cur()
-            r = z3.Int(c.fresh_name("rows"))
-            q = z3.Int(c.fresh_name("cols"))
+            full = slice(None)
+            # a full slice keeps that dimension; anything else selects some rows / columns
+            r = self.rows if isinstance(key, tuple) and len(key) == 2 and key[0] == full else z3.Int(c.fresh_name("rows"))
+            q = self.cols if isinstance(key, tuple) and len(key) == 2 and key[1] == full else z3.Int(c.fresh_name("cols"))
             c.assume(z3.And(r >= 0, q >= 0, r <= self.rows, q <= self.cols))
             self._cache[k] = MV(r, q, self.name + "[..]")
         return self._cache[k]
 
     def __neg__(self):
-        return self[("neg",)]
+        if ("neg",) not in self._cache:
+            self._cache[("neg",)] = MV(self.rows, self.cols, "-" + self.name)
+        return self._cache[("neg",)]
 
     def __matmul__(self, v):
         if isinstance(v, MV):
-            return self[("mm", v.cid)]
+            if ("mm", v.cid) not in self._cache:
+                self._cache[("mm", v.cid)] = MV(self.rows, v.cols, self.name + "@" + v.name)
+            return self._cache[("mm", v.cid)]
         k = ("mv", getattr(v, "cid", id(v)))
         if k not in self._cache:
             self._cache[k] = vecs.fresh_vec(self.name + "@v", self.rows, finite=True)
